@@ -32,6 +32,53 @@ fn build_trees(lang: &str, l: usize, fields: &'static [&'static str]) -> (Vec<Tr
   let total = gen::count(spec.tokens.len(), l);
   let mut srcs: Vec<String> = (0..total).map(|i| gen::nth(spec.tokens, l, i)).collect();
   srcs.extend(spec.corpus.iter().map(|s| s.to_string()));
+  build_trees_from(lang, srcs, fields)
+}
+
+/// sources for the `range` family: every token string <= l with every gap filled by a space or a
+/// newline (so nodes start and end on different lines in every language), plus the corpus
+fn multiline_sources(lang: &str, l: usize) -> Vec<String> {
+  let spec = spec_by_name(lang).unwrap();
+  let toks: Vec<&str> = spec.tokens.iter().cloned().filter(|t| !t.contains('\n')).collect();
+  let mut out = vec![];
+  for i in 0..gen::count(toks.len(), l) {
+    let seq = gen::nth_tokens(toks.len(), l, i);
+    let gaps = seq.len().saturating_sub(1);
+    for mask in 0..(1usize << gaps) {
+      let mut s = String::new();
+      for (j, &t) in seq.iter().enumerate() {
+        s.push_str(toks[t]);
+        if j + 1 < seq.len() {
+          s.push(if mask >> j & 1 == 1 { '\n' } else { ' ' });
+        }
+      }
+      out.push(s);
+    }
+  }
+  out.extend(spec.corpus.iter().map(|s| s.to_string()));
+  out
+}
+
+/// every `range` with lines 0..=3 and (character) columns 0..=5, start <= end
+fn range_atoms() -> Vec<R> {
+  let mut v = vec![];
+  for sl in 0..=3usize {
+    for el in sl..=3 {
+      for sc in 0..=5usize {
+        for ec in 0..=5 {
+          if sl == el && sc > ec {
+            continue;
+          }
+          v.push(R::Range(sl, sc, el, ec));
+        }
+      }
+    }
+  }
+  v
+}
+
+fn build_trees_from(lang: &str, srcs: Vec<String>, fields: &'static [&'static str]) -> (Vec<Tree>, usize) {
+  let spec = spec_by_name(lang).unwrap();
   let n_all = srcs.len();
   let trees: Vec<Tree> = srcs
     .into_par_iter()
@@ -262,14 +309,31 @@ fn main() {
     }
     r1.par_iter().for_each(|r| run_rule(&rep, lang, r, &trees1, &stats));
     r2.par_iter().for_each(|r| run_rule(&rep, lang, r, &trees2, &stats));
+    // `range` family: every range over small coordinates, alone and under each kind of operator,
+    // on multi-line layouts of every token string
+    let (rtrees, _) = build_trees_from(lang, multiline_sources(lang, if args.thorough() { 4 } else { 3 }), la.fields);
+    let (rtrees_small, _) = build_trees_from(lang, multiline_sources(lang, if args.thorough() { 3 } else { 2 }), la.fields);
+    let ranges = range_atoms();
+    let k0 = R::Kind(la.kinds[0].to_string());
+    let mut wrapped = vec![];
+    for r in &ranges {
+      wrapped.push(R::Obj(vec![k0.clone(), r.clone()]));
+      wrapped.push(R::All(vec![k0.clone(), R::Not(Box::new(r.clone()))]));
+      wrapped.push(R::Inside(Box::new(Rel { rule: r.clone(), stop: Stop::End, field: None })));
+      wrapped.push(R::Has(Box::new(Rel { rule: r.clone(), stop: Stop::Neighbor, field: None })));
+    }
+    rules_total += ranges.len() + wrapped.len();
+    ranges.par_iter().for_each(|r| run_rule(&rep, lang, r, &rtrees, &stats));
+    wrapped.par_iter().for_each(|r| run_rule(&rep, lang, r, &rtrees_small, &stats));
     per_lang.push(json!({"lang": lang, "rules_depth_le1": r1.len(), "rules_depth2": r2.len(),
       "L_depth_le1": l1, "trees_depth_le1": trees1.len(), "sources_generated_depth_le1": n1,
-      "L_depth2": l2, "trees_depth2": trees2.len(), "sources_generated_depth2": n2}));
+      "L_depth2": l2, "trees_depth2": trees2.len(), "sources_generated_depth2": n2,
+      "range_rules": ranges.len(), "range_rules_wrapped": wrapped.len(), "range_trees_multiline": rtrees.len(), "range_trees_multiline_wrapped": rtrees_small.len()}));
   }
   let cov = json!({
     "evaluations": stats.evals.load(Ordering::Relaxed),
     "distinct_nontrivial": stats.nontrivial_rules.load(Ordering::Relaxed),
-    "rule": "every rule tree of depth <= 2 over per-language atoms (rulegen.rs: all/any/not, inside/has/precedes/follows x stopBy neighbor|end|rule x field, nthChild An+B/reverse/ofRule, multi-key objects) loaded through the real YAML deserialiser, against every node of every tree parsed from token strings <= L without zero-width nodes; an evaluation is one (rule, node) pair; distinct_nontrivial = number of distinct rules that matched at least one node and rejected at least one node",
+    "rule": "every rule tree of depth <= 2 over per-language atoms (rulegen.rs: all/any/not, inside/has/precedes/follows x stopBy neighbor|end|rule x field, nthChild An+B/reverse/ofRule, multi-key objects; plus every `range` with lines 0..3 x character columns 0..5, alone and under obj/not/inside/has, on every space-or-newline layout of every token string) loaded through the real YAML deserialiser, against every node of every tree parsed from token strings <= L without zero-width nodes; an evaluation is one (rule, node) pair; distinct_nontrivial = number of distinct rules that matched at least one node and rejected at least one node",
     "samples": samples.take(),
     "exhaustive": true,
     "rules": rules_total,
